@@ -91,7 +91,7 @@ def expand_macros(text, file_text, names, log):
 class FnSpec:
     def __init__(self, file, name, impl=None, nth=0, out_name=None, sig=None, sig_anchor=None, rules=(), requires=None, ensures=None,
                  loops=None, pre_body="", props=(), macros=(), block_anchor=None, attrs="", kind="property", model="S", returns=None,
-                 keep_panics=False, decreases=None, mode="exec", tail="", block_nth=0):
+                 keep_panics=False, decreases=None, mode="exec", tail="", block_nth=0, loops_optional=False):
         self.file, self.name, self.impl, self.nth = file, name, impl, nth
         self.out_name = out_name or name
         self.sig, self.sig_anchor = sig, sig_anchor
@@ -102,6 +102,7 @@ class FnSpec:
         self.props = list(props)
         self.macros = list(macros)
         self.block_nth = block_nth
+        self.loops_optional = loops_optional
         self.block_anchor = block_anchor      # regex inside the fn: extract the balanced {..} block that follows it instead of the whole body
         self.attrs = attrs
         self.kind = kind                      # property | mechanism | helper
@@ -169,7 +170,7 @@ class FnSpec:
                 sig = re.sub(r"\bfn\s+" + re.escape(self.name) + r"\b", "fn " + self.out_name, sig)
         # loops
         if self.loops:
-            body = insert_loop_specs(body, self.loops, where)
+            body = insert_loop_specs(body, self.loops, where, self.loops_optional)
         contract = ""
         if self.requires:
             contract += "\n    requires\n        " + self.requires.strip().rstrip(",") + ","
@@ -190,7 +191,7 @@ class FnSpec:
 LOOP_RE = re.compile(r"\b(loop|while|for)\b")
 
 
-def insert_loop_specs(body, loops, where):
+def insert_loop_specs(body, loops, where, optional=False):
     """splices `invariant ... decreases ...` text in front of the `{` of the k-th loop (textual order)"""
     m = lx.mask(body)
     heads = []
@@ -214,6 +215,10 @@ def insert_loop_specs(body, loops, where):
         if o is not None:
             heads.append((mm.start(), o, kw))
     want = sorted(loops.keys())
+    if want and want[-1] >= len(heads) and optional:
+        # the loop the invariant was written for is gone: verify the body without it (its postcondition decides)
+        loops = {k: v for k, v in loops.items() if k < len(heads)}
+        want = sorted(loops.keys())
     if want and want[-1] >= len(heads):
         raise Undecided(f"{where}: loop ordinal {want[-1]} not found ({len(heads)} loops) -- the code's shape changed; contract needs review")
     out, last = [], 0
